@@ -33,6 +33,8 @@ type c20case struct {
 	sig   string
 	// localBase: every file carries its own definition "Base" and an allOf over "#/$defs/Base"
 	localBase bool
+	// anyDefs: untyped definitions referred to across packages
+	anyDefs bool
 }
 
 const c20Mod = "example.com/mod"
@@ -132,6 +134,24 @@ func genC20Case(ctx *Ctx, i int) *c20case {
 	}
 	if i%6 == 5 {
 		c.flags = append(c.flags, "--extra-imports")
+	}
+	if layout == 2 && len(fs.Files) > 1 {
+		// an "anything" definition (no type, properties or enum) in one package, referred to from another: the
+		// reference is interface{}, so the referring file must not import a package it does not use
+		for k, f := range fs.Files {
+			nx := fs.Files[(k+1)%len(fs.Files)]
+			if c.maps[f.Name].pkg == c.maps[nx.Name].pkg || len(nx.Root.Types) != 1 || nx.Root.Types[0] != "object" {
+				continue
+			}
+			meta := &sg.Schema{Desc: "free form"}
+			f.Root.Defs = append(f.Root.Defs, sg.Prop{Name: fmt.Sprintf("Meta%d", k), S: meta})
+			rel, err := filepath.Rel(filepath.Dir(nx.Path), f.Path)
+			if err != nil {
+				continue
+			}
+			nx.Root.Props = append(nx.Root.Props, sg.Prop{Name: fmt.Sprintf("meta%d", k), S: &sg.Schema{Ref: filepath.ToSlash(rel) + "#/$defs/" + fmt.Sprintf("Meta%d", k), Target: meta}})
+			c.anyDefs = true
+		}
 	}
 	if layout == 2 && (i/4)%2 == 0 {
 		share := map[string]int{}
